@@ -1,4 +1,5 @@
 import Ahbicht.Model.Expr
+import Ahbicht.Model.CFV
 /-!
 # M-KEYS (part 1) — condition key → kind of node (`condition_node_distinction.py`)
 -/
@@ -31,5 +32,23 @@ def catOf (key : List Char) : Option Cat :=
   | some .hint => some .hint
   | some .fc => some .fc
   | _ => none
+
+def Atom.condKey? : Atom → Option (List Char) | .cond k => some k | _ => none
+def Atom.pkgKey? : Atom → Option (List Char) | .pkg k _ => some k | _ => none
+def Atom.timeKey? : Atom → Option (List Char) | .time k => some k | _ => none
+
+/-- condition keys of the tree in document order (with repetitions) -/
+def condKeys (e : Expr) : List (List Char) := e.atoms.filterMap Atom.condKey?
+def pkgKeys (e : Expr) : List (List Char) := e.atoms.filterMap Atom.pkgKey?
+def timeKeys (e : Expr) : List (List Char) := e.atoms.filterMap Atom.timeKey?
+
+theorem condKeys_leaf_cond (k : List Char) : condKeys (.leaf (.cond k)) = [k] := rfl
+theorem condKeys_bin' (o : Op) (l r : Expr) : condKeys (.bin o l r) = condKeys l ++ condKeys r := by
+  simp [condKeys, Expr.atoms, List.filterMap_append]
+theorem mem_condKeys {e : Expr} {k : List Char} : k ∈ condKeys e ↔ Atom.cond k ∈ e.atoms := by
+  simp only [condKeys, List.mem_filterMap]
+  constructor
+  · rintro ⟨a, ha, hk⟩; cases a <;> simp [Atom.condKey?] at hk; subst hk; exact ha
+  · intro h; exact ⟨_, h, rfl⟩
 
 end Ahbicht
